@@ -220,7 +220,7 @@ def build_driver(name="core"):
         return 0, "cached"
     full = os.path.join(OCAML, "_%s_main.ml" % name)
     with open(full, "w", encoding="utf-8") as f:
-        f.write("open %s_model\n" % name.capitalize())
+        f.write("open %s_model\ntype string = Stdlib.String.t\n" % name.capitalize())
         f.write(open(os.path.join(OCAML, "common.ml.inc"), encoding="utf-8").read())
         f.write(open(body, encoding="utf-8").read())
         f.write(open(os.path.join(OCAML, "main.ml.inc"), encoding="utf-8").read())
